@@ -4,13 +4,13 @@ wt="$1"; cd "$wt" || exit 2
 export CARGO_NET_OFFLINE=true
 out="$wt/seeded/confirm.log"; : > "$out"
 echo "## demo with change" >> "$out"
-cargo test --offline --test seeded_demo >> "$out" 2>&1; with=$?
+cargo test --offline $FEATURES --test seeded_demo >> "$out" 2>&1; with=$?
 echo "## full suite with change (demo excluded)" >> "$out"
 mv tests/seeded_demo.rs /tmp/$(basename $wt)_seeded_demo.rs.aside
 cargo test --workspace --no-fail-fast --offline > "$wt/seeded/suite.log" 2>&1; suite=$?
 grep -E "^test result|FAILED" "$wt/seeded/suite.log" | sort | uniq -c >> "$out"
 mv /tmp/$(basename $wt)_seeded_demo.rs.aside tests/seeded_demo.rs
 echo "## demo without change" >> "$out"
-git apply -R seeded/patch.diff && cargo test --offline --test seeded_demo >> "$out" 2>&1; without=$?
+git apply -R seeded/patch.diff && cargo test --offline $FEATURES --test seeded_demo >> "$out" 2>&1; without=$?
 git apply seeded/patch.diff
 echo "RESULT demo_with_change_exit=$with suite_exit=$suite demo_without_change_exit=$without" | tee -a "$out"
